@@ -15,6 +15,9 @@
 (*   Park/Resume  a reader that was created is set aside while other       *)
 (*                readers and writers use the CID, and iterated later      *)
 (*                (`readers = [Reader(cid, p) for p in paths]`)            *)
+(*   ReadAgain    rows() is called once more on a reader that was not      *)
+(*                closed (the caller rewinds the source): no new object,   *)
+(*                counters, row numbers and checks start afresh    239-242 *)
 (*   OpenWriter   Writer.__init__                                  278-295 *)
 (*   WriterRow    Writer.write_row                                 320-330 *)
 (*   WriterEnd    Writer.close or nothing                          338-344 *)
@@ -33,6 +36,11 @@
 (*                      created -- then a reader created early and read    *)
 (*                      late inherits what happened in between (expected   *)
 (*                      counterexample with Parking)                       *)
+(*   RegisterBeforeWrite FALSE: a row the container's writer refuses (it    *)
+(*                      cannot be encoded) leaves no trace in the checks;  *)
+(*                      TRUE: shipped code, the checks have seen the row   *)
+(*                      before the container refuses it (D14, known        *)
+(*                      finding)                                           *)
 (*   EndChecksOnError   FALSE: a failing end-of-data check never replaces  *)
 (*                      the error that ended the run (C06); TRUE: pinned   *)
 (*                      code (D8)                                          *)
@@ -49,8 +57,9 @@ CONSTANTS NFields,            \* number of declared fields
           Ends,               \* how a read may end: subset of {"close", "forget", "abandon"}
           Writers,            \* BOOLEAN: writers take part
           MaxOps,             \* length of histories explored
+          Rereads,            \* BOOLEAN: a reader that was not closed may be read again
           Parking,            \* BOOLEAN: a created reader may be set aside and iterated after other runs
-          ResetOnOpen, ResetOnStart, RegisterOnReach, EndChecksOnError,
+          ResetOnOpen, ResetOnStart, RegisterOnReach, RegisterBeforeWrite, EndChecksOnError,
           LogCalls            \* BOOLEAN: keep the call log (C20)
 
 VARIABLES chk,   \* state living in the CID: per check, unique: set of <<key, row number>>; distinct: set of values
@@ -182,27 +191,28 @@ ExpectedRead(api, mode, limit, end, k, tbl, ror, ecoe) ==
 
 \* a written data set: header rows are written unvalidated, a rejected row raises, emits nothing and does not
 \* advance the line; the row number in errors and bookkeeping counts emitted rows only
-RECURSIVE WriteFold(_, _, _, _, _)
-WriteFold(tbl, i, line, a, ror) ==
+RECURSIVE WriteFold(_, _, _, _, _, _)
+WriteFold(tbl, i, line, a, ror, rbw) ==
   IF i > Len(tbl.rows) THEN a
   ELSE IF line < Header
        THEN IF tbl.rows[i].w = "enc"
-            THEN WriteFold(tbl, i + 1, line, [a EXCEPT !.out = Append(@, ItemErr(Err("DataFormatError", i, 0, 0, 0))), !.rej = @ + 1], ror)
-            ELSE WriteFold(tbl, i + 1, line + 1, [a EXCEPT !.out = Append(@, ItemRow(i)), !.acc = @ + 1], ror)
+            THEN WriteFold(tbl, i + 1, line, [a EXCEPT !.out = Append(@, ItemErr(Err("DataFormatError", i, 0, 0, 0))), !.rej = @ + 1], ror, rbw)
+            ELSE WriteFold(tbl, i + 1, line + 1, [a EXCEPT !.out = Append(@, ItemRow(i)), !.acc = @ + 1], ror, rbw)
   ELSE LET r == RowVerdict(a.st, tbl.rows[i], line + 1, ror)
            cl == Log(RowCalls(tbl.rows[i], i, r[3]))
        IN IF r[2].cls = "none" /\ tbl.rows[i].w = "enc"
           THEN WriteFold(tbl, i + 1, line,
-                         [a EXCEPT !.st = r[1], !.out = Append(@, ItemErr(Err("DataFormatError", i, 0, 0, 0))), !.rej = @ + 1,
-                                   !.calls = @ \o cl], ror)
+                         [a EXCEPT !.st = IF rbw THEN r[1] ELSE a.st,
+                                   !.out = Append(@, ItemErr(Err("DataFormatError", i, 0, 0, 0))), !.rej = @ + 1,
+                                   !.calls = @ \o cl], ror, rbw)
           ELSE IF r[2].cls = "none"
           THEN WriteFold(tbl, i + 1, line + 1,
-                         [a EXCEPT !.st = r[1], !.out = Append(@, ItemRow(i)), !.acc = @ + 1, !.calls = @ \o cl], ror)
+                         [a EXCEPT !.st = r[1], !.out = Append(@, ItemRow(i)), !.acc = @ + 1, !.calls = @ \o cl], ror, rbw)
           ELSE WriteFold(tbl, i + 1, line,
                          [a EXCEPT !.st = r[1], !.out = Append(@, ItemErr([r[2] EXCEPT !.line = i])), !.rej = @ + 1,
-                                   !.calls = @ \o cl], ror)
-ExpectedWrite(tbl, closed, ror) ==
-  LET a == WriteFold(tbl, 1, 0, [Acc0 EXCEPT !.calls = Log(ResetCalls)], ror)
+                                   !.calls = @ \o cl], ror, rbw)
+ExpectedWrite(tbl, closed, ror, rbw) ==
+  LET a == WriteFold(tbl, 1, 0, [Acc0 EXCEPT !.calls = Log(ResetCalls)], ror, rbw)
   IN IF closed THEN Closed(a, FALSE, FALSE)
      ELSE [out |-> a.out, acc |-> a.acc, rej |-> a.rej, exc |-> NoErr, calls |-> a.calls]
 
@@ -220,7 +230,7 @@ OpenReader(api, ds, mode, limit, end, k) ==
   /\ end # "abandon" => k = 0
   /\ sess' = [kind |-> "reader", api |-> api, ds |-> ds, mode |-> mode, limit |-> limit, end |-> end, k |-> k,
               started |-> FALSE, pos |-> 0, out |-> <<>>, acc |-> 0, rej |-> 0, yielded |-> 0, exc |-> NoErr,
-              resumed |-> FALSE, createdAt |-> Len(hist)]
+              resumed |-> FALSE, createdAt |-> Len(hist), again |-> FALSE]
   /\ chk' = IF ResetOnOpen THEN EmptyChk ELSE chk
   /\ calls' = IF ResetOnOpen THEN Log(ResetCalls) ELSE <<>>
   /\ UNCHANGED hist
@@ -276,7 +286,8 @@ Done == \/ ~Wants
 Abandoned == sess.end = "abandon" /\ sess.yielded = sess.k
 
 RunRecord(res) == [op |-> "read", api |-> sess.api, ds |-> sess.ds, mode |-> sess.mode, limit |-> sess.limit,
-                   end |-> sess.end, k |-> sess.k, deferred |-> sess.resumed, createdAt |-> sess.createdAt, res |-> res]
+                   end |-> sess.end, k |-> sess.k, deferred |-> sess.resumed /\ ~sess.again, createdAt |-> sess.createdAt,
+                   again |-> sess.again, res |-> res]
 
 \* the consumer stops; close() runs unless the reader is simply forgotten
 ReaderEnd ==
@@ -315,7 +326,7 @@ WriterRow ==
                         ELSE [sess EXCEPT !.pos = i, !.line = @ + 1, !.acc = @ + 1, !.out = Append(@, ItemRow(i))]
              /\ UNCHANGED <<chk, calls>>
         ELSE LET r == RowVerdict(chk, row, sess.line + 1, RegisterOnReach) IN
-             /\ chk' = r[1]
+             /\ chk' = IF r[2].cls = "none" /\ row.w = "enc" /\ ~RegisterBeforeWrite THEN chk ELSE r[1]
              /\ calls' = calls \o Log(RowCalls(row, i, r[3]))
              \* (validation is complete before the row is handed to the container's writer, which refuses what it cannot encode)
              /\ sess' = IF r[2].cls = "none" /\ row.w # "enc"
@@ -335,7 +346,7 @@ WriterEnd ==
                 ELSE [out |-> sess.out, acc |-> sess.acc, rej |-> sess.rej, exc |-> NoErr, calls |-> calls]
      IN hist' = Append(hist, [op |-> "write", api |-> "writer", ds |-> sess.ds, mode |-> "raise", limit |-> None,
                               end |-> IF sess.closes THEN "close" ELSE "forget", k |-> 0, deferred |-> FALSE,
-                              createdAt |-> Len(hist), res |-> res])
+                              createdAt |-> Len(hist), again |-> FALSE, res |-> res])
   /\ sess' = NoSess /\ calls' = <<>> /\ UNCHANGED chk
 
 \* (the guards are repeated in front of the quantifiers so that TLC does not enumerate Tables in every state)
@@ -349,7 +360,19 @@ Park ==
 Resume ==
   /\ sess.kind = "none" /\ parked.kind # "none" /\ Len(hist) > parked.createdAt
   /\ sess' = [parked EXCEPT !.resumed = TRUE] /\ parked' = NoSess /\ calls' = <<>> /\ UNCHANGED <<chk, hist>>
+\* the reader of the run that just ended was not closed and is read once more from the beginning of its source
+ReadAgain(end, k) ==
+  /\ Rereads /\ sess.kind = "none" /\ Room /\ Len(hist) > 0
+  /\ LET p == hist[Len(hist)] IN
+       /\ p.op = "read" /\ p.api = "reader" /\ p.end \in {"forget", "abandon"}
+       /\ end = "abandon" => k \in 1..Len(p.ds.rows)
+       /\ end # "abandon" => k = 0
+       /\ sess' = [kind |-> "reader", api |-> "reader", ds |-> p.ds, mode |-> p.mode, limit |-> p.limit, end |-> end, k |-> k,
+                   started |-> FALSE, pos |-> 0, out |-> <<>>, acc |-> 0, rej |-> 0, yielded |-> 0, exc |-> NoErr,
+                   resumed |-> TRUE, createdAt |-> Len(hist), again |-> TRUE]
+  /\ calls' = <<>> /\ UNCHANGED <<chk, hist, parked>>
 Next == \/ Park \/ Resume
+        \/ \E e \in Ends : \E k \in 0..3 : ReadAgain(e, k)
         \/ Idle /\ \E api \in Apis, ds \in Tables, m \in Modes, l \in Limits, e \in Ends :
                      \E k \in (IF e = "abandon" THEN 1..Len(ds.rows) ELSE {0}) : OpenReader(api, ds, m, l, e, k)
         \/ ReaderStart \/ ReaderFault \/ ReaderRow \/ ReaderEnd
@@ -360,7 +383,7 @@ Spec == Init /\ [][Next]_vars
 (* ================================ properties ================================ *)
 \* what a freshly loaded CID would have produced for run r (the shipped switch positions)
 Fresh(r) ==
-  IF r.op = "write" THEN ExpectedWrite(r.ds, r.end = "close", FALSE)
+  IF r.op = "write" THEN ExpectedWrite(r.ds, r.end = "close", FALSE, FALSE)
   ELSE ExpectedRead(r.api, r.mode, r.limit, r.end, r.k, r.ds, FALSE, FALSE)
 
 \* C08: every completed, closed run equals the same run on a fresh CID
@@ -535,6 +558,11 @@ ValidateStopsAfterN ==
     /\ Last.res.exc.cls \in {"DataError", "FieldValueError"} => Last.res.exc.line <= Last.limit[1]
     /\ Last.res.exc.cls = "CheckError" /\ Last.res.exc.line # 0 => Last.res.exc.line <= Last.limit[1]
 
+\* how reading back what a writer emitted ends (result record res of the writer, table tbl)
+BackExc(res, tbl) ==
+  LET emitted == RowsOnly(res.out)
+      written == [rows |-> [j \in 1..Len(emitted) |-> tbl.rows[emitted[j][2]]], fault |-> 0]
+  IN ExpectedRead("rows", "yield", None, "close", 0, written, FALSE, FALSE).exc
 \* C14: a writer emits exactly the rows it accepted, and its output validates again
 WriterEmitsAccepted ==
   JustEnded /\ Last.op = "write" =>
@@ -568,6 +596,12 @@ Emit == (sess.kind = "none" /\ Len(hist) = MaxOps) =>
                                 pinnedror |-> IF hist[j].op = "read"
                                               THEN ExpectedRead(hist[j].api, hist[j].mode, hist[j].limit, hist[j].end, hist[j].k,
                                                                 hist[j].ds, TRUE, FALSE)
-                                              ELSE ExpectedWrite(hist[j].ds, hist[j].end = "close", TRUE)]],
+                                              ELSE ExpectedWrite(hist[j].ds, hist[j].end = "close", TRUE, FALSE),
+                                \* known finding D14: what the code does when the container refuses a row the checks have seen
+                                pinnedrbw |-> IF hist[j].op = "read" THEN Fresh(hist[j])
+                                              ELSE ExpectedWrite(hist[j].ds, hist[j].end = "close", FALSE, TRUE),
+                                rbwBackDiffers |-> hist[j].op = "write" /\ hist[j].end = "close" /\
+                                                   BackExc(ExpectedWrite(hist[j].ds, TRUE, FALSE, TRUE), hist[j].ds)
+                                                     # ExpectedWrite(hist[j].ds, TRUE, FALSE, TRUE).exc]],
                            header |-> Header, nfields |-> NFields, checks |-> Checks, logcalls |-> LogCalls])>>)
 =============================================================================
